@@ -144,8 +144,11 @@ class BaseKey(t.Generic[NativePrivateKey, NativePublicKey], metaclass=ABCMeta):
             data.update(self.extra_parameters)  # type: ignore
         data["kty"] = self.key_type
         self.validate_dict_key(data)
-        self._dict_value = data
-        return data
+        # fill the existing dict in place instead of rebinding it: when a key is
+        # shared between threads, a concurrent ensure_kid() may already have stored
+        # the "kid" in it, and rebinding would silently drop that "kid" again
+        self._dict_value.update(data)
+        return self._dict_value
 
     @property
     def public_key(self) -> NativePublicKey:
@@ -179,8 +182,9 @@ class BaseKey(t.Generic[NativePrivateKey, NativePublicKey], metaclass=ABCMeta):
             data.update(params)
             return data
 
-        # clear private fields
-        for k in self.dict_value:
+        # clear private fields (iterate over the copy, the shared dict_value may
+        # receive its lazy "kid" from another thread at any time)
+        for k in list(data):
             if k in self.value_registry and self.value_registry[k].private:
                 del data[k]
 
